@@ -4,7 +4,11 @@
 (b) exhaustive primitive identities over lattice vectors against integer / rational oracles,
 (c) explicit-state BFS over call sequences from four initial numpy.geterr() settings; the state is the
     error configuration + byte images of all caller arrays + contents of all live boxes + a mesh.
-Around EVERY call of real code (all three parts) the argument arrays' byte images and numpy.geterr() are
+(b') every primitive with two calling forms answers the same in both; the + - * primitives are exact on
+    large-magnitude integer lattices for every element type whose arithmetic is exact (mc/c12_exact.py),
+(b'') the sweeps of (a) and (b) repeated with the unit of length multiplied by 2^-30 and 2^30 (subchecks C12.scale.*,
+    input classes suffixed ':unit=2^k').
+Around EVERY call of real code (all parts) the argument arrays' byte images and numpy.geterr() are
 compared before/after, whether the call returns or raises (mc/c12_guard.py).
 """
 from __future__ import annotations
@@ -24,7 +28,11 @@ RULE = ("boxes: every (min,max) corner pair of the lattice alphabet (inverted, f
         "every ordered tuple of <=3 lattice points for of_points; primitives: every tuple of lattice vectors of the "
         "stated alphabets (zero vectors, collinear points, parallel lines, zero axes included); BFS: every call "
         "history up to the depth over a fixed menu of ~60 calls (returning and raising) on a fixed world of caller "
-        "arrays, boxes and a point cloud, from 4 initial numpy.geterr() settings; a case is one input tuple / one "
+        "arrays, boxes and a point cloud, from 4 initial numpy.geterr() settings; calling forms: every primitive that "
+        "can be called in two ways is called in both on the same data; element types: every ordered pair / triple of "
+        "the vectors {b-1,b,b+1}^3 + 9 mixed-sign vectors for the stated magnitudes b x {int64 array, Vec of int64, list "
+        "of Python ints, object array of ints / Fractions / thirds, float64}; unit of length: the lattice sweeps "
+        "repeated with all lengths x 2^-30 and x 2^30; a case is one input tuple / one "
         "distinct (geterr, byte images, aliasing pattern) state; non-trivial = the call reached the library")
 ASSUMPTIONS = [
     "coordinates restricted to the small integer / half-integer alphabets given in the bounds (float arithmetic exact on them)",
@@ -34,6 +42,15 @@ ASSUMPTIONS = [
     "signed-angle antisymmetry is compared modulo 2*pi (pi == -pi)",
     "value clauses are swept under numpy's default error configuration; the other three configurations are explored by the BFS",
     "BFS depth bound and one result slot R; in-place mutators in the menu: AABB.pad only",
+    "exact equality with the rational oracle is demanded only where the element type's + - * are exact: object arrays "
+    "(Python ints, Fractions) always, int64 when (number of terms) x max|entry|^(factors) < 2^63 (larger: filtered and "
+    "counted), float64 when that bound is < 2^53; float64 beyond keeps a tolerance of 1e-12 x the bound; cross() builds a "
+    "new Vec from scalars, so Python ints are exact only while they fit int64",
+    "lists and object arrays are argument types the docstrings do not name: raising is counted, a wrong answer reported",
+    "unit-of-length deviation: multiplying by 2^k is exact in binary64, expectations are computed exactly from the scaled "
+    "lattice, tolerances are relative to the unit; float arrays only; directions (rotation axes, plane / reference normals) "
+    "are not scaled; the known signed-angle finding (normal orthogonal to V1xV2) is not judged again per unit",
+    "axis_rot_from_z and face_basis, triangle areas, Vec constructors are checked against their docstrings only",
 ]
 BOUNDS = {
     "quick": "boxes: d=1 corners {-2..2} x points {-2.5..2.5 step .5} (float+int), d=2 corners {-1,0,1,2} x points {-1.5..2.5 step .5} "
@@ -43,11 +60,18 @@ BOUNDS = {
              "distance), all triples of {-1,0,1}^3 (det_3x3, angles, cotan, circumcentre, signed angles x 27 normals, project_to_plane), "
              "{-2..2}^2 triples (segment distance), {-1,0,1}^2 line pairs; rotations by k*pi/6 (2-D |k|<=12 on {-2..2}^2, 3-D |k|<=6, all 27 "
              "axes of {-1,0,1}^3 incl. zero, 4 second angles); angle reduction on k*pi/6 (+-1e-12), |k|<=36, all pairs; roots n<=6 on 18 unit "
-             "inputs x 3 moduli; BFS depth 2 over ~66 calls x 4 numpy error states",
+             "inputs x 3 moduli; BFS depth 2 over ~66 calls x 4 numpy error states; forms/element types: det_3x3 on all triples of "
+             "{-1,0,1}^3 and of the 17 vectors {b-1,b+1}^3+mixed for b=2^20 (7 types x 2 forms), b=2^21, 2^53 (types without a "
+             "range + int64 for the overflow filter); dot/cross/norm/distance/det_2x2 on all pairs of the 36 vectors for b=0, 2^20, "
+             "2^30 and of the 17 for 2^31, 2^53, 2^70; face_basis forms with first point in 3 centres x {-1,0,1}^3 pairs; unit of "
+             "length 2^-30 and 2^30: all primitive sweeps above (rot3d with 4 second angles) and boxes d=1 {-2..2}, d=2 "
+             "{-1,0,1,2} points / {-1,0,1} pairs, of_points d<=2, pad d=1",
     "thorough": "quick plus: boxes d=2 corners {-2..2} x points {-2.5..2.5}, d=3 corners {-1,0,1} and {-1,0,1,2} x their half-lattices; all ordered "
                 "pairs of d=2 {-2..2} and d=3 {-1,0,1}; of_points d=3 on {-2..2} (<=2 points) and {-1,0,1,2} (<=3 points); det_3x3 on all triples "
                 "of {-2..2}^3; angle/cotan/circumcentre triples and signed-angle pairs with outer vectors in {-2..2}^3; 3-D rotations with all 13 "
-                "second angles; line pairs with directions in {-2..2}^2; BFS depth 3 x 4 numpy error states (sharded over depth-1 states)",
+                "second angles; line pairs with directions in {-2..2}^2; BFS depth 3 x 4 numpy error states (sharded over depth-1 states); det_3x3 element types on all triples of the 36 vectors "
+                "for b=2^20 and b=2^70 (object types); face_basis forms on all triples of {-1,0,1}^3; unit-of-length sweeps with outer "
+                "vectors {-2..2}^3, box pairs d=2 {-1,0,1,2}, d=3 box points, pad d=2",
 }
 
 HALF = lambda lo, hi: [x / 2 for x in range(2 * lo - 1, 2 * hi + 2)]     # half-lattice one step beyond the corners
